@@ -94,6 +94,8 @@ def _ops(ops) -> str:
 def emit_case(c) -> str:
     if c["kind"] == "seq":
         return f"(CSeq {_cfg(c['cfg'])} {_ops(c['ops'])})"
+    if c["kind"] == "conc":
+        return f"(CConc {_cfg(c['cfg'])} {c['keys']} {_ops(c['setup'])} {_ops(c['a'])} {_ops(c['b'])})"
     return (f"(CTree {_cfg(c['cfg'])} {c['keys']} [{'; '.join('Dy ' + _dy(d) for d in c['durs'])}] "
             f"[{'; '.join(_optnat(m) for m in c['reopens'])}] {_ops(c['prefix'])} {c['depth']})")
 
@@ -252,6 +254,145 @@ class _Box:
         return self.apply(o) + self.probe(keys)
 
 
+# ---- two clients on one cache: deterministic step scheduler (every dict/list/lock call is one step)
+class _Sched:
+    def __init__(self, choices):
+        import threading
+
+        self.th = threading
+        self.choices, self.trace = list(choices), []
+        self.ctl = threading.Semaphore(0)
+        self.go = [threading.Semaphore(0), threading.Semaphore(0)]
+        self.done, self.waiting, self.tid = [False, False], [None, None], {}
+
+    def me(self):
+        return self.tid.get(self.th.get_ident())
+
+    def pause(self):
+        i = self.me()
+        if i is None:           # main thread (setup, final probe): not scheduled
+            return
+        self.ctl.release()
+        self.go[i].acquire()
+
+    def run(self, fns):
+        def worker(i):
+            self.tid[self.th.get_ident()] = i
+            self.go[i].acquire()
+            try:
+                fns[i]()
+            finally:
+                self.done[i] = True
+                self.ctl.release()
+
+        ts = [self.th.Thread(target=worker, args=(i,), daemon=True) for i in (0, 1)]
+        for x in ts:
+            x.start()
+        step = 0
+        while not all(self.done):
+            enabled = [i for i in (0, 1) if not self.done[i]
+                       and (self.waiting[i] is None or self.waiting[i].owner is None)]
+            if not enabled:
+                raise RuntimeError("deadlock between the two clients")
+            pick = self.choices[step] if step < len(self.choices) and self.choices[step] in enabled else enabled[0]
+            self.trace.append((pick, tuple(enabled)))
+            step += 1
+            self.go[pick].release()
+            if not self.ctl.acquire(timeout=30):
+                raise RuntimeError("scheduler lost a client")
+        for x in ts:
+            x.join(30)
+
+
+class _SLock:
+    """Stands for manager.Lock(): acquiring is a scheduling step; a client waiting for it is not runnable."""
+
+    def __init__(self, sched):
+        self.sched, self.owner = sched, None
+
+    def __enter__(self):
+        i = self.sched.me()
+        if i is None:
+            return self
+        self.sched.waiting[i] = self
+        self.sched.pause()
+        self.sched.waiting[i] = None
+        assert self.owner is None
+        self.owner = i
+        return self
+
+    def __exit__(self, *a):
+        if self.sched.me() is not None:
+            self.owner = None
+        return False
+
+
+def _stepped(base, names):
+    """Subclass of dict/list standing for a manager proxy: each listed method is one atomic scheduling step."""
+    def mk(name):
+        orig = getattr(base, name)
+
+        def f(self, *a, **k):
+            self._sched.pause()
+            r = orig(self, *a, **k)
+            return list(r) if name in ("keys", "values", "items", "__iter__") else r
+        return f
+
+    return type("Stepped" + base.__name__, (base,), {n: mk(n) for n in names})
+
+
+_SDict = _stepped(dict, ["__contains__", "__getitem__", "__setitem__", "__delitem__", "__len__", "pop", "keys",
+                         "values", "items", "clear", "get"])
+_SDict.__iter__ = lambda self: (self._sched.pause(), iter(list(dict.keys(self))))[1]
+_SList = _stepped(list, ["__len__", "append", "pop", "remove", "__delitem__", "__getitem__", "__contains__"])
+
+
+def _conc_once(c, choices):
+    cfg, keys = c["cfg"], c["keys"]
+    box = _Box(cfg, None)
+    box.fresh()
+    for o in c["setup"]:
+        box.apply(o)
+    sched = _Sched(choices)
+    cache = box.cache
+    for name in ("_cache_dict", "_access_counts", "_computation_durations"):
+        if hasattr(cache, name):
+            d = _SDict(getattr(cache, name))
+            d._sched = sched
+            setattr(cache, name, d)
+    if hasattr(cache, "_cache_queue"):
+        q = _SList(cache._cache_queue)
+        q._sched = sched
+        cache._cache_queue = q
+    cache._cache_lock = _SLock(sched)
+    outs = [[], []]
+
+    def client(i, ops):
+        return lambda: [outs[i].append(box.apply(o)) for o in ops]
+
+    sched.run([client(0, c["a"]), client(1, c["b"])])
+    return "".join(outs[0]) + "|" + "".join(outs[1]) + "|" + box.probe(keys), sched.trace
+
+
+def run_conc(c, limit=4000):
+    """All schedules (stateless depth-first search over the scheduler's choice points)."""
+    outcomes, stack, n = set(), [[]], 0
+    while stack:
+        prefix = stack.pop()
+        out, trace = _conc_once(c, prefix)
+        outcomes.add(out)
+        n += 1
+        if n > limit:
+            raise RuntimeError("too many schedules")
+        for i in range(len(prefix), len(trace)):
+            chosen, enabled = trace[i]
+            for alt in enabled:
+                if alt != chosen:
+                    stack.append([x[0] for x in trace[:i]] + [alt])
+    c["_schedules"] = n
+    return sorted(outcomes)
+
+
 def alphabet(keys, durs, reopens, pos):
     return ([["P", k, pos, d] for k in range(keys) for d in durs] + [["G", k] for k in range(keys)] + [["X"]]
             + [["R", m] for m in reopens])
@@ -268,6 +409,8 @@ def run_impl(c):
             return Err(e)
         if c["kind"] == "seq":
             return "".join(box.apply(o) for o in c["ops"])
+        if c["kind"] == "conc":
+            return run_conc(c)
         keys, durs, reopens = c["keys"], c["durs"], c["reopens"]
         out = [box.step_probed(keys, o) for o in c["prefix"]]
 
@@ -375,6 +518,30 @@ def witnesses():
     return w
 
 
+def conc_cases(rng, quick):
+    cases = []
+    for cfg in (_lru(1), _lru(2), _hyb(1), _hyb(2)):
+        hyb = cfg["cls"] == "hyb"
+
+        def put(k, v, d=1.0):
+            return ["P", k, v, d if hyb else 0.0]
+
+        setups = [[], [put(0, 1)], [put(0, 1), put(1, 2, 0.0)], [put(0, 1), ["G", 0], put(1, 2)]]
+        singles_a = [[put(k, 10 + k, 0.0)] for k in range(3)] + [[["G", k]] for k in range(2)]
+        singles_b = [[put(k, 20 + k, 2.0)] for k in range(3)] + [[["G", k]] for k in range(2)]
+        one = [{"kind": "conc", "cfg": cfg, "keys": 3, "setup": s, "a": a, "b": b}
+               for s in setups for a in singles_a for b in singles_b]
+        doubles = [[put(2, 11), ["G", 0]], [["G", 0], put(2, 12)], [["G", 1], ["G", 0]], [put(0, 13), put(2, 14)],
+                   [["G", 0], ["G", 0]]]
+        two = [{"kind": "conc", "cfg": cfg, "keys": 3, "setup": s, "a": a,
+                "b": [[o[0], o[1], o[2] + 10, o[3]] if o[0] == "P" else o for o in b]}
+               for s in setups[1:] for a in doubles for b in doubles]
+        # every schedule of a case costs one pair of threads: the quick tier samples the pairs
+        cases += rng.sample(one, 12) if quick else one
+        cases += rng.sample(two, 2 if quick else 15)
+    return cases
+
+
 def generate(rng, tier, mult):
     quick = tier == "quick"
     cases = witnesses()
@@ -402,6 +569,8 @@ def generate(rng, tier, mult):
     cases += tree_cases(_lru(3, True), 4, [0.0], [], d_sh - 1)
     cases += tree_cases(_hyb(3, shared=True), 4, [0.0, 1.0], [], d_sh - 1)
     cases += tree_cases(_disk(2, True, 1, True), 3, [0.0], [1], 2 if quick else 3)
+    # --- two concurrent clients (locked operations put/get), all schedules
+    cases += conc_cases(rng, quick)
     # --- random longer sequences
     n = (60 if quick else 600) * mult
     for _ in range(n):
@@ -425,6 +594,8 @@ def nontrivial_key(c):
     ck = tuple(sorted((k, str(v)) for k, v in cfg.items()))
     if c["kind"] == "tree":
         return ("tree", ck, c["keys"], str(c["prefix"]), c["depth"])
+    if c["kind"] == "conc":
+        return ("conc", ck, str(c["setup"]), str(c["a"]), str(c["b"]))
     puts = [o[1] for o in c["ops"] if o[0] == "P"]
     mx = cfg.get("max")
     if len(puts) != len(set(puts)) or (mx is not None and len(set(puts)) > mx):
@@ -438,6 +609,8 @@ def distribution(c):
          "max": cfg.get("max", "-")}
     if c["kind"] == "tree":
         d["tree_depth"] = len(c["prefix"]) + c["depth"]
+    elif c["kind"] == "conc":
+        d["conc_ops"] = f"{len(c['a'])}+{len(c['b'])}"
     else:
         d["seq_len"] = 10 * (len(c["ops"]) // 10)
     return d
@@ -449,6 +622,14 @@ def finding_id(c, impl_obs, kind):
 
 def shrink(c):
     out = []
+    if c["kind"] == "conc":
+        for key in ("setup", "a", "b"):
+            for i in range(len(c[key])):
+                d = {k: v for k, v in c.items() if not k.startswith("_")}
+                d[key] = c[key][:i] + c[key][i + 1:]
+                if d["a"] and d["b"]:
+                    out.append(d)
+        return out
     if c["kind"] == "tree":
         keys = c["keys"]
         if c["depth"] > 0:
